@@ -161,3 +161,9 @@ package blobstore
 //@ func (*resumingErrorHandler).Done
 //@   props C11
 //@   ensures resumes-once: suspended(eh.suspendable) == -1
+// A failing read is reported as it is and does not end the suspension: Done()
+// is still going to be called for the buffer and resumes the clock once.
+//@ func (resumingErrorHandler).OnError
+//@   props C11
+//@   ensures an-error-is-passed-on-unchanged: r0 == nil && r1 == err
+//@   ensures an-error-leaves-the-suspension-to-done: forall s ref :: suspended(s) == 0
